@@ -1,14 +1,14 @@
 (* C35 - MapList.__init__ and MapItem.parse (androguard/core/dex/__init__.py): the map list is read (a count from the file, then one
    12-byte map_item per count), and every item's section is parsed from its own offset - a count from the file, one record per count.
-   Modelled section kinds: the id tables (string, type, proto, field, method ids: records of 4, 4, 12, 8, 8 bytes), type lists,
+   Modelled section kinds: the id tables (string, type, proto, field ids: records of 4, 4, 12, 8 bytes), string data, code items, type lists,
    annotation set ref lists, annotation set items (a 32-bit count, then records of 2, 4, 4 bytes; a type list of odd length is
    followed by two bytes of padding, read without a check), annotations directories (four words, then three lists of 8-byte records)
-   and the map list itself (not parsed again).  The other kinds (header, class definitions, class data, code, string data, debug
-   info, annotations, encoded arrays, hidden API data, call sites, method handles) have models of their own or none: a map that
+   and the map list itself (not parsed again).  The other kinds (header, method ids and class definitions - fixed records, but read with look-ups in
+   the other tables -, class data, debug info, annotations, encoded arrays, hidden API data) have models of their own or none: a map that
    names one is outside this model (OtherError).  A value that is no TypeMapItem raises ValueError while the list is read.
    The file is the list of its bytes; a BytesIO positioned at p is (skipn p buf); reading k bytes from fewer raises struct.error. *)
 From Coq Require Import ZArith List Bool Lia.
-Require Import V.Lib.Val V.Lib.Result.
+Require Import V.Lib.Val V.Lib.Result V.Dex.LebModel V.Dex.StringsModel V.Dex.MapOrderModel V.gen.Gen_MapDeps.
 Import ListNotations.
 Open Scope Z_scope.
 
@@ -54,18 +54,52 @@ Definition rd_anndir (fuel : nat) (bs : bytes) : result (Z * bytes) :=
   do '(ps, r6) <- read_n (rd_fixed 8) fuel np r5 [];
   Ok (Z.of_nat (length fs + length ms + length ps), r6).
 
-Inductive kind := KFixed (k : nat) | KSized (k : nat) (pad_odd : bool) | KAnnDir | KSelf | KOutside.
+(* string_data_item: the length in UTF-16 units (readuleb128), then the bytes up to the first NUL (read_null_terminated_string -
+   coq/Dex/StringsModel.v has the reader with its 128-byte chunks and the theorem that it stops behind the first NUL; here only
+   what it leaves behind matters); no NUL before the end of the file raises ValueError *)
+Definition rd_strdata (bs : bytes) : result (Z * bytes) :=
+  do '(n, r) <- read_u bs;
+  if has0 r then Ok (n, after0 r) else Err ValueError.
+
+(* code_item (DalvikCode.__init__): 16 bytes of header; the instructions taken in one read (a short read is not an error: they are
+   decoded later, C02); two bytes of padding when there are try items and an odd number of code units; the try items; the list of
+   handler lists (EncodedCatchHandlerList, EncodedCatchHandler, EncodedTypeAddrPair).  CodeItem.__init__ aligns every item to
+   four bytes: L is the length of the file, so that (L - bytes left) is the position *)
+Definition rd_pair (bs : bytes) : result (unit * bytes) :=
+  do '(_, r) <- read_u bs; do '(_, r2) <- read_u r; Ok (tt, r2).
+Definition rd_handler (fuel : nat) (bs : bytes) : result (Z * bytes) :=
+  do '(size, r) <- read_s bs;
+  do '(ps, r1) <- read_n rd_pair fuel (Z.abs size) r [];
+  if size <=? 0 then do '(_, r2) <- read_u r1; Ok (Z.of_nat (length ps), r2) else Ok (Z.of_nat (length ps), r1).
+Definition rd_code (L : nat) (fuel : nat) (bs : bytes) : result ((Z * Z) * bytes) :=
+  let pos := Z.of_nat L - Z.of_nat (length bs) in
+  let bs0 := skipn (Z.to_nat ((4 - pos mod 4) mod 4)) bs in
+  do '(h, r) <- take_n 16 bs0;
+  let tries := le (firstn 2 (skipn 6 h)) in
+  let insns := le (skipn 12 h) in
+  let r1 := skipn (Z.to_nat (Z.min (2 * insns) (Z.of_nat (length r)))) r in
+  do r2 <- (if Z.odd insns && (0 <? tries) then do '(_, x) <- u16 r1; Ok x else Ok r1);
+  if 0 <? tries then
+    do '(ts, r3) <- read_n (rd_fixed 8) fuel tries r2 [];
+    do '(hs, r4) <- read_u r3;
+    do '(hl, r5) <- read_n (rd_handler fuel) fuel hs r4 [];
+    Ok ((Z.of_nat (length ts), Z.of_nat (length hl)), r5)
+  else Ok ((0, 0), r2).
+
+Inductive kind := KFixed (k : nat) | KSized (k : nat) (pad_odd : bool) | KAnnDir | KSelf | KOutside | KStrData | KCode | KNothing.
 (* TypeMapItem(value): None when the value is no member of the enum *)
 Definition kind_of (ty : Z) : option kind :=
   if ty =? 1 then Some (KFixed 4) else if ty =? 2 then Some (KFixed 4) else if ty =? 3 then Some (KFixed 12)
-  else if ty =? 4 then Some (KFixed 8) else if ty =? 5 then Some (KFixed 8)
+  else if ty =? 4 then Some (KFixed 8)
   else if ty =? 4097 then Some (KSized 2 true) else if ty =? 4098 then Some (KSized 4 false) else if ty =? 4099 then Some (KSized 4 false)
   else if ty =? 8198 then Some KAnnDir else if ty =? 4096 then Some KSelf
-  else if (ty =? 0) || (ty =? 6) || (ty =? 7) || (ty =? 8) || (ty =? 8192) || (ty =? 8193) || (ty =? 8194) || (ty =? 8195) || (ty =? 8196)
+  else if ty =? 8194 then Some KStrData else if ty =? 8193 then Some KCode
+  else if (ty =? 7) || (ty =? 8) then Some KNothing          (* call sites, method handles: members of the enum MapItem.parse has no branch for *)
+  else if (ty =? 0) || (ty =? 6) || (ty =? 5) || (ty =? 8192) || (ty =? 8195) || (ty =? 8196)
           || (ty =? 8197) || (ty =? 61440) then Some KOutside
   else None.
 (* where MapItem.parse seeks to: the string ids at their offset, the others at offset + offset % 4 *)
-Definition start_of (ty off : Z) : Z := if ty =? 1 then off else off + off mod 4.
+Definition start_of (ty off : Z) : Z := if (ty =? 1) || (ty =? 8194) then off else off + off mod 4.
 
 (* MapItem.parse: the number of objects the section gave (for a list of sized records: the number of lists) *)
 Definition section (fuel : nat) (buf : bytes) (ty count off : Z) : result Z :=
@@ -74,6 +108,9 @@ Definition section (fuel : nat) (buf : bytes) (ty count off : Z) : result Z :=
   | None => Err ValueError
   | Some KOutside => Err OtherError
   | Some KSelf => Ok 0
+  | Some KNothing => Ok 0
+  | Some KStrData => do '(xs, _) <- read_n rd_strdata fuel count bs []; Ok (Z.of_nat (length xs))
+  | Some KCode => do '(xs, _) <- read_n (rd_code (length buf) fuel) fuel count bs []; Ok (Z.of_nat (length xs))
   | Some (KFixed k) => do '(xs, _) <- read_n (rd_fixed k) fuel count bs []; Ok (Z.of_nat (length xs))
   | Some (KSized k p) => do '(xs, _) <- read_n (rd_sized k p fuel) fuel count bs []; Ok (Z.of_nat (length xs))
   | Some KAnnDir => do '(xs, _) <- read_n (rd_anndir fuel) fuel count bs []; Ok (Z.of_nat (length xs))
@@ -97,12 +134,17 @@ Fixpoint sections (fuel : nat) (buf : bytes) (items : list mitem) : result (list
                do ns <- sections fuel buf r;
                Ok (n :: ns)
   end.
-(* MapList.__init__(cm, off, buff): the items in file order with the number of objects of each section.  (The sections are parsed
-   in the load order of C07; they are independent of each other - each seeks to its own offset - and all that can go wrong in a
-   modelled section is a short read, so neither the numbers nor the kind of error depend on that order.) *)
+(* the order in which MapList.__init__ parses the sections: sorted by the load order of C07 (computed by the model of
+   determine_load_order from the dependency table that is regenerated from dex_types.py on every run); stable *)
+Definition load_order : list Z := match determine_load_order dep_table with Ok l => l | Err _ => [] end.
+Definition load_rank (it : mitem) : Z := match index_of (m_type it) load_order with Some i => i | None => -1 end.
+(* MapList.__init__(cm, off, buff): the items in file order with the number of objects of each section.  The sections are parsed in
+   load order, so that is the order in which an error shows (a short read raises struct.error, string data without its NUL
+   ValueError); the numbers do not depend on the order - every section seeks to its own offset. *)
 Definition map_list (fuel : nat) (buf : bytes) (off : Z) : result (list (mitem * Z)) :=
   do '(n, r) <- u32 (seek buf off);
   do '(items, _) <- read_n rd_mitem fuel n r [];
+  do _ <- sections fuel buf (isort load_rank items);
   do ns <- sections fuel buf items;
   Ok (combine items ns).
 
